@@ -121,6 +121,7 @@ type Policy struct {
 	RestartAt []int  `json:"restart_at"`           // stop+reopen after these block indexes
 	Reader    bool   `json:"reader"`               // slow disk + concurrent API reader: while the block's state commit waits at the stalled store, every state key and account the block changed is read through the read-write ledger (what the JSON-RPC / gRPC account and storage queries do)
 	Compete   int    `json:"compete,omitempty"`    // block replacement at the head: chance (per mille) per block that the replica first executes a competing block of the same height (the block without one of its transactions) and then receives the real one, which takes the executor through its rollback of the head and the re-execution (what a node sees when the ordering layer hands it a height again after a restart or a fork)
+	Synced    bool   `json:"synced,omitempty"`     // the replica receives every block the way block synchronisation delivers it: as the reference stored it after execution (header, roots and hash filled in) instead of the bare block the ordering layer cuts
 	Burst     int    `json:"burst,omitempty"`      // back-to-back delivery: the replica lags and is then handed this many blocks at once, each before the previous one is executed (what a node sees when ordering or block sync runs ahead of execution: the executor's pre-execution stage works on block N+1 while block N is still being executed)
 	ApiReader int    `json:"api_reader,omitempty"` // concurrent account-API reader at the yield points of the flush/commit path: chance (per mille) per yield point that a balance query (coreapi GetAccount: Ledger.Copy().GetOrCreateAccount) runs exactly there
 }
@@ -290,6 +291,13 @@ type blockResult struct {
 	Receipts []*pb.Receipt
 	Meta     *pb.InterchainMeta
 	TxHashes []*types.Hash
+	Block    *pb.Block // the block as the executor left it (header filled in, hash set)
+}
+
+// syncedCommit: the block as a node that caught up through block synchronisation receives it, i.e. as a peer stored
+// it after executing it (header, hash and signature filled in), not as the ordering layer cuts it.
+func syncedCommit(executed *pb.Block, localList []bool) *pb.CommitEvent {
+	return cloneCommit(&pb.CommitEvent{Block: executed, LocalList: localList})
 }
 
 var errWedged = fmt.Errorf("no ExecutedEvent within the watchdog window")
@@ -299,7 +307,7 @@ func (r *replica) execute(ev *pb.CommitEvent, watchdog time.Duration) (*blockRes
 	r.exec.ExecuteBlock(cloneCommit(ev))
 	select {
 	case e := <-r.evCh:
-		res := &blockResult{Height: e.Block.BlockHeader.Number, Hash: e.Block.BlockHash.String(), Header: e.Block.BlockHeader, Meta: e.InterchainMeta, TxHashes: e.TxHashList}
+		res := &blockResult{Height: e.Block.BlockHeader.Number, Hash: e.Block.BlockHash.String(), Header: e.Block.BlockHeader, Meta: e.InterchainMeta, TxHashes: e.TxHashList, Block: e.Block}
 		for _, h := range e.TxHashList {
 			rc, err := r.lg.GetReceipt(h)
 			if err != nil {
@@ -331,7 +339,7 @@ func (r *replica) executeBurst(evs []*pb.CommitEvent, watchdog time.Duration) ([
 	}
 	var out []*blockResult
 	for _, e := range got {
-		res := &blockResult{Height: e.Block.BlockHeader.Number, Hash: e.Block.BlockHash.String(), Header: e.Block.BlockHeader, Meta: e.InterchainMeta, TxHashes: e.TxHashList}
+		res := &blockResult{Height: e.Block.BlockHeader.Number, Hash: e.Block.BlockHash.String(), Header: e.Block.BlockHeader, Meta: e.InterchainMeta, TxHashes: e.TxHashList, Block: e.Block}
 		for _, h := range e.TxHashList {
 			rc, err := r.lg.GetReceipt(h)
 			if err != nil {
@@ -376,7 +384,7 @@ func (r *replica) executeWithReader(ev *pb.CommitEvent, watchdog time.Duration, 
 	r.stateKV.Release()
 	select {
 	case e := <-r.evCh:
-		res := &blockResult{Height: e.Block.BlockHeader.Number, Hash: e.Block.BlockHash.String(), Header: e.Block.BlockHeader, Meta: e.InterchainMeta, TxHashes: e.TxHashList}
+		res := &blockResult{Height: e.Block.BlockHeader.Number, Hash: e.Block.BlockHash.String(), Header: e.Block.BlockHeader, Meta: e.InterchainMeta, TxHashes: e.TxHashList, Block: e.Block}
 		for _, h := range e.TxHashList {
 			rc, err := r.lg.GetReceipt(h)
 			if err != nil {
